@@ -20,7 +20,8 @@
 (* properly terminated (Terminated = TRUE) and TLC refutes them for an         *)
 (* unterminated prefix (Terminated = FALSE: target 2 also selects 25, 255).    *)
 (*                                                                             *)
-(* One action per API call: Store, Get, Gap, GovBatch, NonGovBatch; and for    *)
+(* One action per API call: Store, Get, Gap, GapBackfill, GovBatch,            *)
+(* NonGovBatch; and for                                                        *)
 (* C16 the environment steps Ack (the caller learned that Store succeeded),    *)
 (* Crash (SIGKILL: acknowledged writes survive, writes not yet acknowledged    *)
 (* may or may not) and Reopen.                                                 *)
@@ -55,7 +56,8 @@ Val(i) == ValIn(vaas, i)
 
 \* ------------------------------------------------------------------ specification view
 SpecGet(i) == IF i \in DOMAIN vaas THEN Val(i) ELSE Nil
-Present(st) == {i.seq : i \in {j \in DOMAIN vaas : Stream(j) = st}}
+PresentOf(f, st) == {i.seq : i \in {j \in DOMAIN f : Stream(j) = st}}
+Present(st) == PresentOf(vaas, st)
 \* Gap detection: everything missing between 0 and the highest stored sequence (node/pkg/db/db_test.go pins "from 0").
 GapOf(S) == IF S = {} THEN [empty |-> TRUE, missing |-> {}, first |-> 0, last |-> 0]
             ELSE [empty |-> FALSE, missing |-> (0..MaxOf(S)) \ S, first |-> 0, last |-> MaxOf(S)]
@@ -167,6 +169,39 @@ Gap(st) ==
 GapReportOK(res, rep) ==
     IF res.empty THEN rep.missing = {} \/ rep.missing = rep.first..rep.last
     ELSE rep = [missing |-> res.missing, first |-> res.first, last |-> res.last]
+
+\* nodePrivilegedService.FindMissingMessages with rpc_backfill: every gap is asked from other guardians' public API;
+\* what they deliver is injected into the node, which stores it.  Whatever the backfill nodes do (deliver, answer
+\* not-found, fail, reset the connection, send garbage), a gap is either really filled - the stream then holds, under
+\* that identifier, exactly bytes a backfill node delivered - or reported missing.  The call may fail as a whole
+\* (gaps filled before the failure stay filled).
+\*   fills  : the VAAs [id, tag] the call made the store hold;  served : the VAAs the backfill nodes delivered.
+BackfillOK(st, fills, served) ==
+    LET pre == SpecGap(st) IN
+    /\ fills \subseteq served
+    /\ \A v \in fills : Stream(v.id) = st /\ (pre.empty \/ v.id.seq \in pre.missing)
+    /\ \A v, w \in fills : v.id = w.id => v = w
+RECURSIVE StoreAll(_, _)
+StoreAll(S, vs) == IF vs = {} THEN S ELSE LET v == CHOOSE x \in vs : TRUE IN StoreAll(StoreF(S, v), vs \ {v})
+GapBackfill(st, fills, served, failed) ==
+    /\ up
+    /\ BackfillOK(st, fills, served)
+    /\ Becomes(StoreAll(Cur, fills))
+    /\ ret' = [op |-> "GapBackfill", st |-> st, failed |-> failed, pre |-> SpecGap(st), filled |-> {v.id.seq : v \in fills}]
+    /\ UNCHANGED up
+\* Is rep = [missing, first, last] the report required after a backfill that filled the sequences `filled`, pre being
+\* the gaps before the call?  (For a stream that held nothing see GapReportOK: no sequence may be reported present
+\* that is not - here: that was not filled.)
+BackfillReportOK(pre, filled, rep) ==
+    IF pre.empty
+    THEN /\ rep.missing \cap filled = {}
+         /\ LET u == rep.missing \cup filled IN u = {} \/ u = rep.first..rep.last
+    ELSE rep = [missing |-> pre.missing \ filled, first |-> pre.first, last |-> pre.last]
+\* The gaps a successful backfill call has to report are exactly the gaps the stream has afterwards.
+BackfillReportsPostGapsStep ==
+    (ret'.op = "GapBackfill" /\ ~ret'.pre.empty)
+        => GapOf(PresentOf(vaas', ret'.st)) = [empty |-> FALSE, missing |-> ret'.pre.missing \ ret'.filled, first |-> ret'.pre.first, last |-> ret'.pre.last]
+BackfillReportsPostGaps == [][BackfillReportsPostGapsStep]_vars
 
 \* db.GetGovernanceVAABatch / PublicrpcServer.GetGovernanceVAABatch
 GovBatch(seqs) ==
